@@ -31,6 +31,7 @@ func init() {
 			witnessFamily("C02"),
 			{Name: "matrix", N: func(string) int { return len(c02Matrix()) }, Run: c02MatrixRun},
 			{Name: "matrix2", N: func(string) int { return len(c02Matrix2()) }, Run: c02Matrix2Run},
+			{Name: "big", N: bigN("C02"), Run: bigRun("C02")},
 			{Name: "rand", N: tierN(150000, 6000000), Run: c02Random},
 		},
 	})
